@@ -23,6 +23,7 @@ def main():
     f = props.PROPS.get(a.prop)
     if f is None:
         print('unknown property', a.prop); sys.exit(2)
+    props.SEED[0] = a.seed
     jobs, meta = f(a.tier)
     if a.only:
         jobs = [j for j in jobs if a.only in j[0]]
